@@ -70,7 +70,7 @@ def case_a():
         "twp_ph": st.one_of(st.none(), st.none(), st.none(), st.sampled_from(PH)),
         "rge_ph": st.one_of(st.none(), st.none(), st.none(), st.sampled_from(PH)),
         "sec_ph": st.one_of(st.none(), st.none(), st.none(), st.sampled_from(PH)),
-        "arg_defaults": st.booleans(),
+        "arg_defaults": st.booleans(), "upper_defaults": st.booleans(),
         "mc_ns": st.sampled_from("ns"), "mc_ew": st.sampled_from("ew"),
         "ocr": st.booleans(),
     })
@@ -135,6 +135,9 @@ def build_args(c):
     kw = {}
     if c["arg_defaults"]:
         kw = {"default_ns": c["ns"], "default_ew": c["ew"]}
+        if c.get("upper_defaults"):
+            # 'N' / 'S' / 'E' / 'W' are legal defaults too; the result is the canonical lower-case string all the same
+            kw = {k: v.upper() for k, v in kw.items()}
     return twp_arg, rge_arg, sec_arg, exp_twp, exp_rge, exp_sec, kw
 
 
@@ -225,8 +228,13 @@ def oracle_a(c):
         check_decomposition(t3, exp_twp, exp_rge, exp_sec, "Tract.set_twprgesec", fails)
         if ret != exp_trs:
             fails.append(Failure("A:set_twprgesec_return", f"set_twprgesec returned {ret!r}, expected {exp_trs!r}"))
+        built = TRS.construct_trs(twp_arg, rge_arg, sec_arg, **kw)
+        if built != exp_trs:
+            fails.append(Failure("A:construct_trs_return", f"TRS.construct_trs({twp_arg!r}, {rge_arg!r}, {sec_arg!r}, {kw}) returned {built!r}, expected {exp_trs!r}"))
         t4 = TRS()
-        t4.set_twprgesec(twp_arg, rge_arg, sec_arg, **kw)
+        ret4 = t4.set_twprgesec(twp_arg, rge_arg, sec_arg, **kw)
+        if ret4 != exp_trs:
+            fails.append(Failure("A:set_twprgesec_return", f"TRS.set_twprgesec returned {ret4!r}, expected {exp_trs!r}"))
         check_decomposition(t4, exp_twp, exp_rge, exp_sec, "TRS.set_twprgesec", fails)
         # direct construction from the canonical string, idempotence, equality, hashing
         t5 = TRS(exp_trs)
@@ -437,6 +445,44 @@ def oracle_c(c):
     return fails
 
 
+# A_malformed: a component that is not a number / number + direction never yields a valid-looking Twp/Rge/Sec -------------
+
+MALFORMED = ["{n}{d}-{m}w", "-{n}", "{n}{d}-", "R.{n}{d}.", "{n}{d}:", "T{n}{d}", "{n}x", "{n}.5", "{n},{m}", "#{n}", "{n}{d} {m}"]
+
+
+def enum_malformed(tier):
+    cases = []
+    for pos in ("twp", "rge", "sec"):
+        for form in MALFORMED:
+            for n, m in ((154, 97), (5, 3), (12, 100)):
+                for entry in ("from_twprgesec", "set_twprgesec", "tract_from_twprgesec", "construct_trs"):
+                    cases.append({"pos": pos, "form": form, "n": n, "m": m, "entry": entry})
+    return cases
+
+
+def oracle_malformed(c):
+    d = {"twp": "n", "rge": "w", "sec": ""}[c["pos"]]
+    bad = c["form"].format(n=c["n"], m=c["m"], d=d)
+    if c["form"] == "-{n}":
+        bad = -c["n"]
+    args = {"twp": 154, "rge": 97, "sec": 14}
+    args[c["pos"]] = bad
+    a = (args["twp"], args["rge"], args["sec"])
+    if c["entry"] == "from_twprgesec":
+        trs = TRS.from_twprgesec(*a).trs
+    elif c["entry"] == "set_twprgesec":
+        o = TRS("1n1w01")
+        o.set_twprgesec(*a)
+        trs = o.trs
+    elif c["entry"] == "tract_from_twprgesec":
+        trs = Tract.from_twprgesec("NE/4", *a).trs
+    else:
+        trs = TRS(TRS.construct_trs(*a)).trs
+    if not TRS(trs).is_error():
+        return [Failure(f"A:malformed_component_accepted:{c['pos']}", f"{c['entry']}{a!r} gives the valid-looking {trs!r} although {c['pos']}={bad!r} is not a number with an optional direction", args=repr(a), got=trs)]
+    return []
+
+
 SUBS = [
     Sub("A_enum", oracle_a, enumerate=enum_a, nontrivial=nontrivial_a, classes=classes_a, exhaustive=True,
         shards={"quick": 8, "thorough": 16}),
@@ -449,4 +495,6 @@ SUBS = [
         n={"quick": 4000, "thorough": 60000}, shards={"quick": 4, "thorough": 16}),
     Sub("C_empty", oracle_c, enumerate=enum_c, nontrivial=lambda c: c["before"] != UNDEF, classes=lambda c: [f"entry={c['entry']}"], exhaustive=True,
         shards={"quick": 1, "thorough": 1}, render=lambda c: c),
+    Sub("A_malformed", oracle_malformed, enumerate=enum_malformed, nontrivial=lambda c: True, classes=lambda c: [f"pos={c['pos']}", f"entry={c['entry']}"], exhaustive=True,
+        shards={"quick": 2, "thorough": 2}, render=lambda c: c),
 ]
